@@ -449,6 +449,11 @@ impl Store {
 
     #[tracing::instrument(skip(self))]
     pub fn head(&self, topic: &str, context_id: Scru128Id) -> Option<Frame> {
+        // No stored topic contains the delimiter byte (append and import refuse it). Inside a
+        // queried topic it would let the prefix match the keys of a shorter topic
+        if topic.as_bytes().contains(&NULL_DELIMITER) {
+            return None;
+        }
         self.idx_topic
             .prefix(idx_topic_key_prefix(context_id, topic))
             .rev()
